@@ -288,6 +288,9 @@ func TestC01Standin(t *testing.T) {
 				}
 			}
 			// the lookup by the source of the first packet
+			if os.Getenv("C01_MERGE") != "" {
+				continue // other visible streams may start at the same source packet
+			}
 			bs, err := r.StreamByFirstPacketSource(s.Pcap, s.PcapBase)
 			if err != nil {
 				fail("by-source-error", in, err.Error())
@@ -308,6 +311,86 @@ func TestC01Standin(t *testing.T) {
 				}
 			}
 		}
+	}
+	if os.Getenv("C01_MERGE") != "" {
+		// C07: several index files with newer versions of some stream ids, merged; the merged files must
+		// return exactly the newest version of every stream, as it was written
+		for round := 0; round < rounds; round++ {
+			tmp := t.TempDir()
+			nFiles := 2 + rng.Intn(3)
+			var readers []*Reader
+			visible := map[uint64]*c01Stream{}
+			for f := 0; f < nFiles; f++ {
+				w, err := NewWriter(tools.MakeFilename(tmp, "idx"))
+				if err != nil {
+					t.Fatal(err)
+				}
+				n := 1 + rng.Intn(6)
+				used := map[uint64]bool{}
+				for i := 0; i < n; i++ {
+					id := uint64(rng.Intn(10))
+					if used[id] {
+						continue
+					}
+					used[id] = true
+					s := genC01Stream(rng, id, []int{0, 0, 0, 1, 2, 4}[rng.Intn(6)])
+					if f%2 == 1 {
+						// files written at another time have another reference time: merged times are re-based
+						s.Start = s.Start.Add(time.Duration(rng.Intn(1000)) * time.Hour)
+					}
+					st := s.build(rng)
+					if ok, err := w.AddStream(&st, s.ID); err != nil || !ok {
+						fail("add-stream", s.describe(), fmt.Sprintf("AddStream: %v %v", ok, err))
+						continue
+					}
+					visible[id] = s // later files hold the newer version
+				}
+				r, err := w.Finalize()
+				if err != nil {
+					fail("finalize", fmt.Sprint(f), err.Error())
+					continue
+				}
+				readers = append(readers, r)
+			}
+			merged, err := Merge(tmp, readers)
+			if err != nil {
+				fail("merge-error", fmt.Sprint(nFiles), err.Error())
+				continue
+			}
+			total := 0
+			for _, m := range merged {
+				total += m.StreamCount()
+			}
+			if total != len(visible) {
+				fail("merged-stream-count", fmt.Sprintf("%d files", nFiles), fmt.Sprintf("merged files hold %d stream records, %d stream ids are visible", total, len(visible)))
+			}
+			for _, s := range visible {
+				var holder *Reader
+				for _, m := range merged {
+					if got, err := m.StreamByID(s.ID); err == nil && got != nil {
+						if holder != nil {
+							fail("merged-twice", s.describe(), "two merged files hold this stream id")
+						}
+						holder = m
+					}
+				}
+				if holder == nil {
+					fail("merged-lost", s.describe(), "no merged file holds this stream id")
+					continue
+				}
+				checkIndex(holder, []*c01Stream{s}, false)
+			}
+			if len(samples) < 3 {
+				for _, s := range visible {
+					samples = append(samples, fmt.Sprintf("%d files -> %d merged; %s", nFiles, len(merged), s.describe()))
+					break
+				}
+			}
+			for _, r := range append(readers, merged...) {
+				r.Close()
+			}
+		}
+		rounds = 0
 	}
 	for round := 0; round < rounds; round++ {
 		tmp := t.TempDir()
